@@ -54,10 +54,17 @@ def forall_range(i, lo, hi, body, pats):
     return t.forall([i], t.implies(t.and_(t.le(lo, i), t.lt(i, hi)), body), pats=pats)
 
 
+def forall_view(b, n, body, name='va!'):
+    """forall j in [b.off, b.off+n): body(rel=j-b.off, elem=b.arr[j]) - stated over the ABSOLUTE index so that the trigger
+    (select arr j) fires for every index term, however the solver normalises the arithmetic"""
+    j = t.var(name, t.INT)
+    e = t.select(b.arr, j)
+    return t.forall([j], t.implies(t.and_(t.le(b.off, j), t.lt(j, t.add(b.off, n))), body(t.sub(j, b.off), e)), pats=[[e]])
+
+
 def isbits(b):
     """every element of the bytes view b is 0 or 1"""
-    i = t.var('bi!', t.INT)
-    return forall_range(i, t.ZERO, b.len, t.and_(t.le(t.ZERO, b.at(i)), t.le(b.at(i), t.ONE)), [[b.at(i)]])
+    return forall_view(b, b.len, lambda rel, e: t.and_(t.le(t.ZERO, e), t.le(e, t.ONE)), 'bi!')
 
 
 def llen(o):
@@ -124,3 +131,28 @@ Lemma('beq_reflexive', [('a', t.ARR), ('ao', t.INT), ('n', t.INT)], lambda v: _b
 Lemma('pyeq_reflexive', [('x', t.VAL)], lambda v: t.app('pyeq', t.BOOL, v['x'], v['x']), tags=('C01', 'C02', 'C05'),
       hints=lambda v: [_beq(t.app('barr', t.ARR, v['x']), t.app('boff', t.INT, v['x']), t.app('barr', t.ARR, v['x']), t.app('boff', t.INT, v['x']), t.app('blen', t.INT, v['x']))],
       doc='the hint is the instance of beq_reflexive at the bytes payload of x')
+
+
+# ------------------------------------------------------------------------------------------------ congruence instances
+def spec_congruence_instances(hyps, goal):
+    """ground instances of the congruence lemmas (CONG, each proved by induction): for every pair of applications of the same
+    specification function to regions in DIFFERENT arrays, equal length and pointwise agreement give equal values."""
+    from pyvc.constructs import _find_apps
+    out = []
+    for fn in ('be_val', 'le_val', 'bits_val', 'val7'):
+        apps = [a for a in _find_apps(list(hyps) + [goal], fn) if not any(v.endswith('!|') or v.endswith('!') for v in a.free_vars())]
+        if len(apps) > 8:
+            continue
+        for x in range(len(apps)):
+            for y in range(x + 1, len(apps)):
+                (a, alo, ahi), (b, blo, bhi) = apps[x].args, apps[y].args
+                if a.smt() == b.smt():
+                    continue
+                n = t.sub(ahi, alo)
+                inst = cong_instance(fn, a, alo, b, blo, n)
+                # cong_instance speaks about (a, alo, alo+n) and (b, blo, blo+n): usable when the second region has the same length
+                out.append(t.implies(t.eq(t.sub(bhi, blo), n), t.implies(t.eq(t.add(blo, n), bhi), inst)))
+    return out
+
+
+prelude.INSTANCE_GENERATORS.append(spec_congruence_instances)
